@@ -256,3 +256,185 @@ pub fn replay_net(case: &Value, rep: &mut Report) {
         }
     }
 }
+
+// ------------------------------------------------------------------------------------------------
+// Group "flow": skip connections (C16), loop connections (C17), feedback blocks (C11)
+// ------------------------------------------------------------------------------------------------
+
+/// Builder description from a Layers-style configuration record.
+pub fn desc_from_cfg(kind: &str, cfg: &Value) -> Value {
+    desc_from_hp(kind, cfg)
+}
+
+fn flow_layer_desc(l: &Value) -> Value {
+    let kind = str_of(l, "kind");
+    if kind == "fb" {
+        let inner: Vec<Value> = l["inner"].as_array().unwrap().iter().map(|i| desc_from_cfg(str_of(i, "kind"), &i["cfg"])).collect();
+        json!({"kind": "feedback", "layers": inner, "loops": l["loops"], "inskips": l["inskips"], "outskips": l["outskips"], "acc": l["acc"]})
+    } else {
+        desc_from_cfg(kind, &l["cfg"])
+    }
+}
+
+fn install_flow_params(net: &mut Network, layers: &[Value]) {
+    for (layer, spec) in net.layers.iter_mut().zip(layers.iter()) {
+        let kind = str_of(spec, "kind");
+        if kind == "fb" {
+            let inner_specs = spec["inner"].as_array().unwrap();
+            let period = inner_specs.len();
+            for (j, inner) in verif::inner_layers_mut(layer).iter_mut().enumerate() {
+                let s = &inner_specs[j % period];
+                install_params(inner, str_of(s, "kind"), &s["params"], s["cfg"]["bias"].as_bool().unwrap_or(false));
+            }
+        } else {
+            install_params(layer, kind, &spec["params"], spec["cfg"]["bias"].as_bool().unwrap_or(false));
+        }
+    }
+}
+
+fn build_flow_net(case: &Value, layers: &[Value]) -> Network {
+    let mut net = Network::new(shape_from(&case["input"]));
+    for l in layers {
+        nets::add_layer(&mut net, &flow_layer_desc(l));
+    }
+    install_flow_params(&mut net, layers);
+    net
+}
+
+pub fn replay_flow(case: &Value, rep: &mut Report) {
+    let mode = str_of(case, "mode");
+    let prop = match mode {
+        "skip" => "C16",
+        "loop" => "C17",
+        _ => "C11",
+    };
+    let layers: Vec<Value> = case["layers"].as_array().unwrap().clone();
+    let id = format!("flow:{}:{}:{}", mode, case["cfg"], case["steps"]);
+    rep.checks += 1;
+    let mut net = match guarded(|| build_flow_net(case, &layers)) {
+        Ok(n) => n,
+        Err(e) => {
+            rep.mismatch(prop, "network_rejected_by_builder", &id, json!({"panic": e}), case);
+            return;
+        }
+    };
+    rep.nontrivial(id.clone());
+    // ---- the behaviour: connect / loopback calls with their contract outcome ----
+    for (i, step) in case["steps"].as_array().unwrap().iter().enumerate() {
+        let want = str_of(step, "outcome");
+        rep.checks += 1;
+        let got = match str_of(step, "op") {
+            "connect" => {
+                let (a, b) = (usize_of(step, "from") - 1, usize_of(step, "to") - 1);
+                guarded(|| net.connect(a, b))
+            }
+            "loopback" => {
+                let (b, a) = (usize_of(step, "outof") - 1, usize_of(step, "into") - 1);
+                let scale: neurons::tensor::Scale = std::sync::Arc::new(|_x| 1.0);
+                let (k, isk) = (usize_of(step, "iterations"), bool_of(step, "inskips"));
+                guarded(|| net.loopback(b, a, k, scale, isk))
+            }
+            op => panic!("harness: unknown flow op {}", op),
+        };
+        match (&got, want) {
+            (Ok(()), "panic") => {
+                rep.mismatch(prop, "second_connection_to_same_target_accepted_replacing_the_first", &id, json!({"step": i, "call": step}), case);
+                return;
+            }
+            (Err(e), "ok") => {
+                rep.mismatch(prop, "valid_connection_rejected", &id, json!({"step": i, "call": step, "panic": e}), case);
+                return;
+            }
+            _ => (),
+        }
+    }
+    // ---- evaluations ----
+    for eval in case["evals"].as_array().unwrap() {
+        let x = spec_value_tensor(&eval["x"]);
+        match mode {
+            "fb" => {
+                rep.checks += 1;
+                match guarded(|| net.predict(&x)) {
+                    Err(e) => rep.mismatch(prop, "predict_panicked", &id, json!({"panic": e, "cfg": case["cfg"]}), case),
+                    Ok(y) => {
+                        if let Some(d) = diff_spec_value(&y, &eval["y"]) {
+                            rep.mismatch(prop, "block_output", &id, json!({"diff": d, "cfg": case["cfg"]}), case);
+                        }
+                    }
+                }
+            }
+            "skip" | "loop" => {
+                for (acc, pv) in eval["predict"].as_object().unwrap() {
+                    if mode == "skip" {
+                        net.set_accumulation(nets::accumulation(acc), nets::accumulation("mean"));
+                    } else {
+                        net.set_accumulation(nets::accumulation("add"), nets::accumulation(acc));
+                    }
+                    rep.checks += 1;
+                    match guarded(|| net.predict(&x)) {
+                        Err(e) => rep.mismatch(prop, "predict_panicked", &id, json!({"panic": e, "accumulation": acc}), case),
+                        Ok(y) => {
+                            if let Some(d) = diff_spec_value(&y, &pv["y"]) {
+                                rep.mismatch(prop, "prediction", &id, json!({"diff": d, "accumulation": acc}), case);
+                            }
+                        }
+                    }
+                }
+                if mode == "skip" && bool_of(eval, "kinkfree") {
+                    net.set_accumulation(nets::accumulation("add"), nets::accumulation("mean"));
+                    let g = spec_value_tensor(&eval["g"]);
+                    rep.checks += 1;
+                    let res = guarded(|| {
+                        let (pre, post, max, fbs) = net.forward(&x);
+                        net.verif_backward(g, &pre, &post, &max, fbs)
+                    });
+                    match res {
+                        Err(e) => rep.mismatch(prop, "backward_panicked", &id, json!({"panic": e}), case),
+                        Ok((wg, bg)) => {
+                            let n = layers.len();
+                            for (i, want) in eval["grads"].as_array().unwrap().iter().enumerate() {
+                                if str_of(&layers[i], "kind") == "pool" {
+                                    continue;
+                                }
+                                let mut d = diff_exact(&wg[n - 1 - i], &want["dw"]);
+                                if d.is_none() && layers[i]["cfg"]["bias"].as_bool().unwrap_or(false) {
+                                    d = match &bg[n - 1 - i] {
+                                        Some(b) => diff_exact(b, &want["db"]),
+                                        None => Some("bias gradient missing".to_string()),
+                                    };
+                                }
+                                if let Some(d) = d {
+                                    rep.mismatch(prop, "gradient_with_additive_skip", &id, json!({"layer": i, "diff": d}), case);
+                                    break;
+                                }
+                            }
+                        }
+                    }
+                }
+                if mode == "loop" {
+                    // Overwrite accumulation without input skips == the real unrolled network with the same weights
+                    let step = &case["steps"][0];
+                    if !bool_of(step, "inskips") {
+                        let (a, b, k) = (usize_of(step, "into") - 1, usize_of(step, "outof") - 1, usize_of(step, "iterations"));
+                        let mut unrolled: Vec<Value> = layers[..a].to_vec();
+                        for _ in 0..=k {
+                            unrolled.extend_from_slice(&layers[a..=b]);
+                        }
+                        unrolled.extend_from_slice(&layers[b + 1..]);
+                        rep.checks += 1;
+                        net.set_accumulation(nets::accumulation("add"), nets::accumulation("overwrite"));
+                        match guarded(|| (build_flow_net(case, &unrolled).predict(&x), net.predict(&x))) {
+                            Err(e) => rep.mismatch(prop, "unrolled_comparison_panicked", &id, json!({"panic": e}), case),
+                            Ok((u, y)) => {
+                                if nets::tensor_bits(&u) != nets::tensor_bits(&y) {
+                                    rep.mismatch(prop, "overwrite_loop_differs_from_unrolled_network", &id, json!({"loop": flat(&y), "unrolled": flat(&u)}), case);
+                                }
+                            }
+                        }
+                    }
+                }
+            }
+            _ => panic!("harness: unknown flow mode"),
+        }
+    }
+}
